@@ -186,7 +186,7 @@ func TestMain(m *testing.M) {
 
 type want struct {
 	id, ch, payload string
-	ttl            uint32
+	ttl             uint32
 }
 
 func spawn(p plan) *exec.Cmd {
